@@ -224,6 +224,23 @@ end
 /-- the driver's iteration order: order of first definition -/
 def idOrd : Ord := id
 
+/-- byte-wise lexicographic order: Go's `<` on strings, the order of `sort.Strings` -/
+def nameLt : Bytes → Bytes → Bool
+  | [], [] => false
+  | [], _ :: _ => true
+  | _ :: _, [] => false
+  | a :: as, b :: bs => if a.toNat < b.toNat then true else if b.toNat < a.toNat then false else nameLt as bs
+
+def insertName (x : Bytes) : List Bytes → List Bytes
+  | [] => [x]
+  | y :: ys => if nameLt x y then x :: y :: ys else y :: insertName x ys
+
+/-- `sort.Strings` -/
+def sortNames (ns : List Bytes) : List Bytes := ns.foldr insertName []
+
+/-- the order in which `expandDefinitions` visits the names since the repair of D28: sorted, in both loops -/
+def sortedOrd : Ord := sortNames
+
 def defaultFuel : Nat := 40
 
 end Crs.Parser
